@@ -72,6 +72,7 @@ CLAIMS.update({
                     "unchanged, invalid sizes are rejected without change, allocation failure is kOutOfMemory and never a NULL dereference. The red-black tree and arena are abstracted by ASSUMED "
                     "stubs. One unit per constant size (quick: 16, 64 and all invalid sizes over 0..1 registered gaps per class; thorough: sizes 2..64 - sizes 2/4/8 over 0..1, 16/32/64 over 0..2 gaps per class; size 1 does not finish and is not covered); pre/post only (no frame check) for add(). "
                     "ConstPool::reset returns any pool to the constructed state. Partial: fill(), tree internals.",
+            "technique_suffix": "; ConstPool::add: pre/postcondition assumed/asserted by a hand-written harness over the lowered code (no dfcc frame check), ConstPool::reset: dfcc",
             "note": COMMON_NOTE + " Tree::get/insert/new_node_t and Arena::alloc_oneshot<Gap> are assumed stubs (trusted abstraction); ConstPool::add runs without goto-instrument's frame check."},
     "C01": {"category": "proof",
             "text": "Only the x86 byte-emission leaves are under contract: emit_immediate / emit_imm_byte_or_dword write exactly the requested number of little-endian bytes and advance the cursor by "
